@@ -81,7 +81,9 @@ class Rule_CV05(BaseRule):
         after_op_list = siblings.select(start_seg=context.segment)
         next_code = after_op_list.first(sp.is_code())
 
-        if not next_code.all(sp.is_type("null_literal")):
+        # NOTE: `.all()` is vacuously true when nothing follows the operator
+        # (e.g. an unfinished `SET @a =`), so check that there is something.
+        if not next_code or not next_code.all(sp.is_type("null_literal")):
             return None
 
         sub_seg = next_code.get()
